@@ -1,7 +1,7 @@
 (** C13 — automata conversions and combinators compute the intended regular languages.
     Statements only; proofs live in C13/Proofs*.v. *)
 From Coq Require Import ZArith List Bool.
-From Algo.C13 Require Import Model Spec Lemmas ProofsNFA ProofsDFA ProofsSM ProofsUnion ProofsStar ProofsSubset ProofsSubsetTerm ProofsElim ProofsMinQuot ProofsMinRound ProofsReindex ProofsCombine ProofsMinimal ProofsMinTerm ProofsIso ProofsIsoNFA.
+From Algo.C13 Require Import Model Spec Lemmas ProofsNFA ProofsDFA ProofsSM ProofsUnion ProofsStar ProofsSubset ProofsSubsetTerm ProofsElim ProofsMinQuot ProofsMinRound ProofsReindex ProofsCombine ProofsMinimal ProofsMinTerm ProofsIso ProofsIsoNFA ProofsConcat.
 Import ListNotations.
 Open Scope Z_scope.
 
@@ -111,10 +111,23 @@ Theorem C13_star : forall (n : nfa) (w : list Z), nwf n -> word_ok w ->
   exists b, naccept (nstar n) w = Ok b /\ (b = true <-> l_star (fun u => naccept n u = Ok true) w).
 Proof. exact nstar_accept. Qed.
 
-(** D13a (known finding): NFA.Concat as written loses the language when the first operand's
-    start state is accepting ([a*·b] rejects [b]) and over-accepts when a final state of the
-    first operand has an outgoing transition and the second operand's start state an incoming one
-    ([a+·b(ab)*] accepts [abaab]). *)
+(** Concat.  The property as written ("Concat accepts exactly the concatenation", for all
+    operands) is refuted by the faithful model — D13a, a known finding of /repo:
+    [C13_concat_refuted] (language lost when the first operand's start state is accepting) and
+    [C13_concat_overaccepts_refuted] (over-acceptance when a final state of an operand has an
+    outgoing transition and the next operand's start state an incoming one). *)
+Definition C13_concat_full : Prop := forall (ns : list nfa) (w : list Z), Forall nwf ns -> word_ok w ->
+  exists b, naccept (nconcat ns) w = Ok b /\
+            (b = true <-> l_concat (map (fun n u => naccept n u = Ok true) ns) w).
+
+(** Proved: on the complement of the D13a signature — no operand has an accepting start state, and
+    no operand with a transition into its start state follows an operand with a transition out
+    of a final state ([csafe True ns]) — Concat accepts exactly the concatenation. *)
+Theorem C13_concat_partial : forall (ns : list nfa) (w : list Z), Forall nwf ns -> csafe True ns -> word_ok w ->
+  exists b, naccept (nconcat ns) w = Ok b /\
+            (b = true <-> l_concat (map (fun n u => naccept n u = Ok true) ns) w).
+Proof. exact nconcat_accept. Qed.
+
 Theorem C13_concat_refuted :
   exists (A B : nfa) (u v : list Z),
     naccept A u = Ok true /\ naccept B v = Ok true /\ naccept (nconcat [A; B]) (u ++ v) = Ok false.
@@ -164,5 +177,6 @@ Print Assumptions C13_iso_dfa.
 Print Assumptions C13_iso_nfa.
 Print Assumptions C13_union.
 Print Assumptions C13_star.
+Print Assumptions C13_concat_partial.
 Print Assumptions C13_concat_refuted.
 Print Assumptions C13_concat_overaccepts_refuted.
